@@ -234,6 +234,99 @@ fn run_dial(b: usize, rng: &mut StdRng, out: &mut Vec<String>) {
     }
 }
 
+/// Dial by peer id over two transports (TCP + WebSocket scripted transports): the failure report of the
+/// transport that is NOT the last one to conclude must re-score its addresses as well, whether the other
+/// transport then opens a connection or fails too.
+fn run_dial_two(b: usize, rng: &mut StdRng, out: &mut Vec<String>) {
+    let mut h = ManagerHarness::new_two(None, None, 1, listen_addrs());
+    let peer = PeerId::random();
+    let mut names: HashMap<Multiaddr, String> = HashMap::new();
+    let (mut tcp, mut ws) = (vec![], vec![]);
+    for i in 0..rng.gen_range(1..4) {
+        let a = addr_for(&format!("{b}-t{i}"), i % 2 == 0).with(Protocol::P2p(peer.into()));
+        names.insert(a.clone(), format!("t{i}"));
+        tcp.push(a);
+    }
+    for i in 0..rng.gen_range(1..4) {
+        let a = addr_for(&format!("{b}-w{i}"), i % 2 == 1).with(Protocol::Ws(std::borrow::Cow::Borrowed("/"))).with(Protocol::P2p(peer.into()));
+        names.insert(a.clone(), format!("w{i}"));
+        ws.push(a);
+    }
+    let scores = |h: &ManagerHarness| -> Value {
+        let mut m = Map::new();
+        for (a, s) in h.addresses(&peer) {
+            m.insert(names.get(&a).cloned().unwrap_or_else(|| a.to_string()), json!(s));
+        }
+        Value::Object(m)
+    };
+    out.push(json!({"e": "reset", "b": b, "src": "dial2", "k": 64}).to_string());
+    h.add_known_address(peer, tcp.iter().chain(ws.iter()).cloned().collect());
+    for _round in 0..rng.gen_range(1..4) {
+        if h.dial(peer).is_err() {
+            break;
+        }
+        while h.step().is_some() {}
+        let mut opened: [Vec<Multiaddr>; 2] = [vec![], vec![]];
+        let mut cid = None;
+        for tr in 0..2 {
+            for c in h.take_calls_on(tr) {
+                if let Call::Open { cid: c, addresses } = c {
+                    cid = Some(c);
+                    opened[tr] = addresses;
+                }
+            }
+        }
+        let Some(cid) = cid else { break };
+        if opened[0].is_empty() || opened[1].is_empty() {
+            // only one transport was asked: nothing new compared with run_dial; conclude and go on
+            let tr = if opened[0].is_empty() { 1 } else { 0 };
+            h.inject_open_failure_on(tr, cid, opened[tr].iter().map(|a| (a.clone(), ErrKind::Timeout)).collect());
+            while h.step().is_some() {}
+            h.take_calls();
+            h.take_calls_on(1);
+            continue;
+        }
+        // first transport to conclude fails on every address
+        let first = rng.gen_range(0..2);
+        let second = 1 - first;
+        let pre = scores(&h);
+        let errs1: Vec<(Multiaddr, ErrKind)> = opened[first].iter().map(|a| (a.clone(), ErrKind::Timeout)).collect();
+        h.inject_open_failure_on(first, cid, errs1.clone());
+        while h.step().is_some() {}
+        let mut results: Vec<Value> = errs1.iter().map(|(a, _)| json!({"a": names[a], "score": -100})).collect();
+        if rng.gen_bool(0.5) {
+            // ... and the other transport fails as well
+            let errs2: Vec<(Multiaddr, ErrKind)> = opened[second].iter().map(|a| (a.clone(), ErrKind::Timeout)).collect();
+            h.inject_open_failure_on(second, cid, errs2.clone());
+            while h.step().is_some() {}
+            results.extend(errs2.iter().map(|(a, _)| json!({"a": names[a], "score": -100})));
+            out.push(json!({"e": "rescore", "pre": pre, "post": scores(&h), "results": results}).to_string());
+        } else {
+            // ... and the other transport opens a connection
+            let win = opened[second].choose(rng).unwrap().clone();
+            h.inject_opened_on(second, cid, win.clone(), vec![]);
+            while h.step().is_some() {}
+            h.inject_established_on(second, peer, cid, false, win.clone());
+            while h.step().is_some() {}
+            h.resolve_accept(cid, true);
+            let mut est = false;
+            while let Some(ev) = h.step() {
+                if let MgrEvent::Established { .. } = ev {
+                    est = true;
+                }
+            }
+            results.push(json!({"a": names[&win], "score": 100}));
+            out.push(json!({"e": "rescore", "pre": pre, "post": scores(&h), "results": results}).to_string());
+            if est {
+                h.connection_closed(peer, cid);
+                while h.step().is_some() {}
+            }
+        }
+        h.take_calls();
+        h.take_calls_on(1);
+    }
+}
+
 fn main() {
     let args = Args::parse();
     quiet_panics();
@@ -260,6 +353,10 @@ fn main() {
     }
     for _ in 0..args.u64("dial", 0) {
         run_dial(b, &mut rng, &mut lines);
+        b += 1;
+    }
+    for _ in 0..args.u64("dial2", 0) {
+        run_dial_two(b, &mut rng, &mut lines);
         b += 1;
     }
     let events = lines.len() - b;
